@@ -1,6 +1,8 @@
 #!/venv/bin/python
-"""rf_detail.py <refactor-id> [props...]: apply a kept refactoring to /repo, print the alarm lines, restore."""
+"""rf_detail.py <refactor-id> [props...]: apply a kept refactoring to a scratch worktree of /repo, print the alarm lines."""
 import json, subprocess, sys, os
+sys.path.insert(0, os.path.dirname(os.path.abspath(__file__)))
+from scratch import scratch
 rid = sys.argv[1]
 d = '/verif/refactors/' + rid
 if not os.path.isdir(d):
@@ -10,14 +12,11 @@ props = sys.argv[2:]
 if not props:
   meta = json.load(open(d + '/meta.json'))
   props = sorted(meta.get('alarms_now') or meta.get('alarms_first_run') or {})
-assert sh('git -C /repo status --porcelain --untracked-files=no').stdout.strip() == ''
-assert sh('git -C /repo apply %s/patch.diff' % d).returncode == 0
-try:
+with scratch(d + '/patch.diff') as (wt, applied):
+  assert applied, 'patch does not apply'
   for p in props:
-    r = sh('/verif/check %s --no-write' % p)
+    r = sh('/verif/check %s --no-write --repo %s' % (p, wt))
     out = [l for l in r.stdout.splitlines() if 'rule=' in l or l.strip().startswith('at ') or 'ANALYSIS-ERROR' in l or 'Traceback' in l or 'File "' in l or 'Error' in l]
     print('==', rid, p, 'exit', r.returncode)
     print('\n'.join(x[:700] for x in out))
     if r.returncode == 2: print(r.stderr[-1500:])
-finally:
-  sh('git -C /repo checkout -- .')
